@@ -314,6 +314,26 @@ def runHistories (prop : String) (t : Tier) (valid : Bool) (n len : Nat) (demuxT
     emit prop (muxCase h true (if valid then "history-valid" else "history-mixed"))
     if demuxToo then emit prop (muxDemuxCase h "mux-demux")
 
+/-- automatic PIDs walk through the PID space (past the PMT PID 0x1000; thorough: up to the null PID and around): one stream
+stays and is written to, thousands come and go, tables are emitted around the places where reserved PIDs must be stepped over -/
+def runWalk (prop : String) (t : Tier) : Emit Unit := do
+  let mut ops : List MuxOp := [.add { elementaryPID := 0, streamType := 0x1b }, .setPCR 0x100, .tables]
+  let mut cur := 0x101
+  for i in [0:(if t.quick then 3900 else 8100)] do
+    -- the PID the muxer will assign: the next one from `cur` that is neither reserved nor 0x100
+    let mut p := cur
+    for _ in [0:300] do
+      if p < 0x100 || p == 0x1000 || p ≥ 0x1fff || p == 0x100 then p := (p + 1) % 65536
+    if p < 0x100 then p := 0x101
+    ops := ops ++ [.add { elementaryPID := 0, streamType := 0x0f }]
+    if i % 1000 = 999 || (p ≥ 0xffe && p ≤ 0x1002) || p ≥ 0x1ffc || p ≤ 0x103 then ops := ops ++ [.tables]
+    ops := ops ++ [.remove p]
+    cur := (p + 1) % 65536
+  ops := ops ++ [.add { elementaryPID := 0, streamType := 0x0f }, .tables]
+  let dw ← liftGen (genData 0x100 false)
+  ops := ops ++ [.data dw, .data dw]
+  emit prop (muxCase { period := 40, ops := ops } true "automatic-pids-walk-the-pid-space")
+
 def runC04 (t : Tier) : Emit Unit := do
   runHistories "C04" t false (if t.quick then 25 else 250) 25 false
   runHistories "C04" t true (if t.quick then 10 else 100) 40 false
@@ -321,6 +341,7 @@ def runC04 (t : Tier) : Emit Unit := do
 def runC05 (t : Tier) : Emit Unit := do
   -- long histories: more than 16 packets per PID, failing calls in between
   runHistories "C05" t false (if t.quick then 20 else 200) 60 false
+  runWalk "C05" t
 
 def runC17 (t : Tier) : Emit Unit := do
   -- many content changes (version wrap-around needs > 32 of them), every period
@@ -337,22 +358,7 @@ def runC17 (t : Tier) : Emit Unit := do
       else ops := ops ++ [.setPCR 0x100, .tables, .tables]
     emit "C17" (muxCase { period := 40, ops := ops } true "version-wrap")
   runHistories "C17" t true (if t.quick then 10 else 100) 50 false
-  -- automatic PIDs walk through the whole PID space (past the PMT PID 0x1000, up to the null PID and around): one stream stays,
-  -- 3900 (thorough: 8100, i.e. once around) streams come and go, tables are emitted around the places where reserved PIDs must be stepped over
-  let mut ops : List MuxOp := [.add { elementaryPID := 0, streamType := 0x1b }, .setPCR 0x100, .tables]
-  let mut cur := 0x101
-  for i in [0:(if t.quick then 3900 else 8100)] do
-    -- the PID the muxer will assign: the next one from `cur` that is neither reserved nor 0x100
-    let mut p := cur
-    for _ in [0:300] do
-      if p < 0x100 || p == 0x1000 || p ≥ 0x1fff || p == 0x100 then p := (p + 1) % 65536
-    if p < 0x100 then p := 0x101
-    ops := ops ++ [.add { elementaryPID := 0, streamType := 0x0f }]
-    if i % 1000 = 999 || (p ≥ 0xffe && p ≤ 0x1002) || p ≥ 0x1ffc || p ≤ 0x103 then ops := ops ++ [.tables]
-    ops := ops ++ [.remove p]
-    cur := (p + 1) % 65536
-  ops := ops ++ [.add { elementaryPID := 0, streamType := 0x0f }, .tables]
-  emit "C17" (muxCase { period := 40, ops := ops } true "automatic-pids-walk-the-pid-space")
+  runWalk "C17" t
 
 /-! ### one MuxerData / adaptation field object reused across calls
 
